@@ -12,6 +12,7 @@ structure State where
   known : Bool := true      -- false once the case used an operation the model cannot replay (`bulk`)
   down : List Nat := []     -- nodes that refuse connections (crashed but still selected)
   dists : List (Nat × Replication.Dist (Nat × Nat × List Nat)) := []   -- the task distributor of node i (members: (member id, node index))
+  pollers : List (Nat × Replication.Poller) := []     -- the replication cycle service of node j, when started
   -- a node holds many keyspaces; they share nothing but the clock and the membership, so the cluster model is instantiated
   -- once per keyspace: `c` is the current one, `others` the rest, `cur` its name
   others : List (String × Cluster) := []
@@ -100,6 +101,22 @@ def repairAll (st : State) (j i : Nat) (rf : Bool) : State × String :=
   ({ st with c := cNew, others := others },
     if failed then "err" else if synced.isEmpty then "skipped" else "synced " ++ ",".intercalate synced)
 
+/-- A bulk write with the replicas the level selected (`put_many` / `del_many` of the handle). -/
+def wbulk (st : State) (i : Nat) (targets : List Nat) (iss : Issued) (ts : Nat) : State × String :=
+  let (c1, okLocal) := applyAt st.c i 0 iss
+  let c1 := { c1 with ops := c1.ops ++ [(i, iss)] }
+  let k := c1.ops.length - 1
+  if !okLocal then ({ st with c := c1 }, s!"local op={k} ts={ts}")
+  else
+    let (c2, acks) := targets.foldl (fun (acc : Cluster × Nat) t =>
+      if st.down.contains t then acc
+      else
+        let (c', ok) := applyAt acc.1 t 0 iss
+        (c', acc.2 + (if ok then 1 else 0))) (c1, 0)
+    ({ st with c := c2 },
+      if acks == targets.length then s!"ok op={k} ts={ts}"
+      else s!"consistency {acks}/{targets.length} op={k} ts={ts}")
+
 def step (st : State) (toks : List String) : State × String :=
   let c := st.c
   match toks with
@@ -149,6 +166,32 @@ def step (st : State) (toks : List String) : State × String :=
     match j.toNat?, i.toNat? with
     | some j, some i => repairAll st j i ((rest.head?.getD "1") == "1")
     | _, _ => (st, "bad-op")
+  | ["poll-start", j, _] =>
+    match j.toNat? with
+    | some j => ({ st with pollers := (j, {}) :: st.pollers.filter (·.1 ≠ j) }, "ok")
+    | none => (st, "bad-op")
+  | ["poll-change", j, l, jn] =>
+    match j.toNat?, parseMembers l, parseMembers jn with
+    | some j, some l, some jn =>
+      let p := ((st.pollers.find? (·.1 == j)).map (·.2)).getD {}
+      ({ st with pollers := (j, { p with queue := p.queue ++ [⟨jn, l⟩] }) :: st.pollers.filter (·.1 ≠ j) }, "ok")
+    | _, _, _ => (st, "bad-op")
+  | ["poll-wait", j, _] =>
+    -- the first tick drains every queued change in order (`Poller.cycle`), then repairs from every live member, in member-id
+    -- order, through the production loop; later ticks find nothing new (no mutation happens while the service runs)
+    match j.toNat? with
+    | some j =>
+      let p := ((st.pollers.find? (·.1 == j)).map (·.2)).getD {}
+      -- members that left lose their tracker entry (`keyspace_tracker.remove_node`)
+      let leftIdx := (p.queue.flatMap (·.left)).map (·.2)
+      let clearTr := fun (c : Cluster) =>
+        let me := getNode c j
+        setNode c j { me with tracker := (List.range me.tracker.length).map (fun x => if leftIdx.contains x then none else me.tracker.getD x none) }
+      let st := { st with c := clearTr st.c, others := st.others.map (fun (o : String × Cluster) => (o.1, clearTr o.2)) }
+      let p' := p.cycle ((p.queue.foldl Replication.pollerStep { p with queue := [] }).live.map (·.1))
+      let targets := (Membership.sortMembers p'.live).map (·.2)
+      (targets.foldl (fun acc i => (repairAll acc j i true).1) { st with pollers := st.pollers.filter (·.1 ≠ j) }, "ok")
+    | none => (st, "bad-op")
   | ["repairm", j] =>
     -- one round of the poller's production loop (`repair_members`): every other node in id order; a failed exchange is logged
     -- and skipped, the others go on
@@ -257,6 +300,18 @@ def step (st : State) (toks : List String) : State × String :=
       let (c2, _) := applyAt c1 i 0 iss2
       let c2 := { c2 with ops := c2.ops ++ [(i, iss2)] }
       ({ st with c := c2 }, "race safe")
+    | _, _, _, _, _ => (st, "bad-op")
+  | "wmput" :: i :: targets :: first :: count :: rest =>
+    -- put_many through the replicas the level selected: one stamp for the batch, a MultiSet locally and on every replica
+    match i.toNat?, (if targets == "-" then some [] else StoreDom.parseIds targets), first.toNat?, count.toNat?,
+          (rest.head?.bind StoreDom.genData), kvArg rest "ts" with
+    | some i, some targets, some first, some count, some d, some ts =>
+      wbulk st i targets (.mput ((List.range count).map (fun k => (first + k, ts, d)))) ts
+    | _, _, _, _, _, _ => (st, "bad-op")
+  | "wmdel" :: i :: targets :: first :: count :: rest =>
+    match i.toNat?, (if targets == "-" then some [] else StoreDom.parseIds targets), first.toNat?, count.toNat?, kvArg rest "ts" with
+    | some i, some targets, some first, some count, some ts =>
+      wbulk st i targets (.mdel ((List.range count).map (fun k => (first + k, ts)))) ts
     | _, _, _, _, _ => (st, "bad-op")
   | op :: i :: targets :: id :: rest =>
     if op == "wput" || op == "wdel" then
